@@ -316,9 +316,10 @@ func (p pdr) String() string {
 }
 
 func (p pdr) IsAppFilterEmpty() bool {
+	// a prefix is a wildcard when its mask is empty, whatever the address bits are (e.g. 0.0.0.0/4 is not)
 	return p.appFilter.proto == 0 &&
-		((p.IsUplink() && p.appFilter.dstIP == 0 && p.appFilter.dstPortRange.isWildcardMatch()) ||
-			(p.IsDownlink() && p.appFilter.srcIP == 0 && p.appFilter.srcPortRange.isWildcardMatch()))
+		((p.IsUplink() && p.appFilter.dstIPMask == 0 && p.appFilter.dstPortRange.isWildcardMatch()) ||
+			(p.IsDownlink() && p.appFilter.srcIPMask == 0 && p.appFilter.srcPortRange.isWildcardMatch()))
 }
 
 func (p pdr) IsUplink() bool {
